@@ -706,6 +706,10 @@ def _linalg_samples():
                     pts = [(x * 4 + (k % 3) * 0.25, y * 8 - (k % 2) * 0.5) for k, (x, y) in enumerate(grid[:n])]
                     cf = [rnd.randint(-8, 8) / 4 for _ in range(18)]
                     yield dict(kind="fit", n=n, model=model, pts=pts, coef=cf, rep=rep)
+        # regular lattices (they contain their own centroid when the side is odd)
+        for side, model in ((3, "affine"), (3, "bilinear"), (3, "biquadratic"), (5, "biquadratic"), (2, "bilinear")):
+            pts = [(float(i) * 15.0, float(j) * 10.0) for j in range(side) for i in range(side)]
+            yield dict(kind="fit", n=len(pts), model=model, pts=pts, coef=[rnd.randint(-8, 8) / 4 for _ in range(18)], rep=0)
         for A in affs[:: (2 if thorough else 7)]:
             pts = [(0.0, 0.0), (3.0, 1.0), (1.0, 5.0), (6.0, 4.0), (7.0, 9.0), (2.0, 8.0), (9.0, 2.0), (4.0, 4.5), (8.5, 6.0)]  # no three on a line
             yield dict(kind="affine_from_pts", A=A, pts=pts[: rnd.choice([3, 4, 9])])
